@@ -127,6 +127,31 @@ static void c10_text(const std::string& text, const ref::Value& rv, const std::v
     ParseResult res = GetOnDemand(json, jp, target);
     Document od;
     od.ParseOnDemand(b.p, b.n, jp);
+    {
+      // the same path as a JsonPointerView (keys are StringViews: slices of longer buffers, not NUL-terminated):
+      // every entry point must give exactly the result it gives for the std::string pointer
+      std::vector<std::string> kb;
+      kb.reserve(full.size());
+      JsonPointerView jv;
+      for (auto& st : full) {
+        if (st.is_num)
+          jv /= JsonPointerNodeView(st.num);
+        else {
+          kb.push_back("\x7f" + st.key + "\x7f\"");
+          jv /= JsonPointerNodeView(StringView(kb.back().data() + 1, st.key.size()));
+        }
+      }
+      StringView t2("garbage-before-call");
+      ParseResult res2 = GetOnDemand(json, jv, t2);
+      if ((res2.Error() == kErrorNone) != (res.Error() == kErrorNone) || t2.data() != target.data() || t2.size() != target.size() || (res.Error() == kErrorNone && res2.Offset() != res.Offset()))
+        ctx.violation("pointer_view_differs", "ondemand_pointer_view_differs", where, "GetOnDemand with a JsonPointerView gives error %d slice [%td,+%zu) but error %d slice [%td,+%zu) with the JsonPointer", (int)res2.Error(),
+                      t2.data() - b.p, t2.size(), (int)res.Error(), target.data() - b.p, target.size());
+      if (doc.AtPointer(jv) != r) ctx.violation("pointer_view_differs", "atpointer_pointer_view_differs", where, "AtPointer with a JsonPointerView resolves differently from the JsonPointer");
+      Document od2;
+      od2.ParseOnDemand(b.p, b.n, jv);
+      if (od2.HasParseError() != od.HasParseError() || od2.Dump() != od.Dump())  // (not ==: texts may hold duplicate keys)
+        ctx.violation("pointer_view_differs", "parseondemand_pointer_view_differs", where, "ParseOnDemand with a JsonPointerView: error %d, with the JsonPointer: error %d, or different documents", (int)od2.GetParseError(), (int)od.GetParseError());
+    }
     if (r) {
       ctx.nontriv();
       ctx.count(0);
